@@ -95,6 +95,88 @@ mod inner {
 #[cfg(unix)]
 mod tz_info;
 
+/// Hooks for the external verification harness: direct, read-only access to the TZif / TZ-rule
+/// reader and the offset lookups that `Local` uses. Not part of the public API.
+#[cfg(all(unix, feature = "__internal_verif"))]
+#[doc(hidden)]
+#[allow(missing_docs, unreachable_pub, missing_debug_implementations)]
+pub mod __verif {
+    use super::tz_info::TimeZone;
+    use crate::{MappedLocalTime, NaiveDateTime};
+
+    #[derive(Debug, Clone, PartialEq, Eq)]
+    pub struct TypeDump {
+        pub ut_offset: i32,
+        pub is_dst: bool,
+        pub name: Option<String>,
+        pub name_bytes: Option<Vec<u8>>,
+    }
+
+    #[derive(Debug, Clone, Copy, PartialEq, Eq)]
+    pub enum DayDump {
+        Julian1(u16),
+        Julian0(u16),
+        MonthWeekday(u8, u8, u8),
+    }
+
+    #[derive(Debug, Clone, PartialEq, Eq)]
+    pub enum RuleDump {
+        Fixed(TypeDump),
+        Alternate {
+            std: TypeDump,
+            dst: TypeDump,
+            start: DayDump,
+            start_time: i32,
+            end: DayDump,
+            end_time: i32,
+        },
+    }
+
+    #[derive(Debug, Clone, PartialEq, Eq)]
+    pub struct ZoneDump {
+        pub transitions: Vec<(i64, usize)>,
+        pub types: Vec<TypeDump>,
+        pub leap_seconds: Vec<(i64, i32)>,
+        pub rule: Option<RuleDump>,
+    }
+
+    #[derive(Debug, Clone)]
+    pub struct Zone(TimeZone);
+
+    impl Zone {
+        pub fn from_tz_data(bytes: &[u8]) -> Result<Zone, String> {
+            TimeZone::from_tz_data(bytes).map(Zone).map_err(|e| format!("{:?}", e))
+        }
+
+        pub fn from_tz_string(tz_string: &str, v3_ext: bool) -> Result<Zone, String> {
+            TimeZone::verif_from_tz_string(tz_string, v3_ext)
+                .map(Zone)
+                .map_err(|e| format!("{:?}", e))
+        }
+
+        pub fn offset_at(&self, unix_time: i64) -> Result<i32, String> {
+            self.0
+                .find_local_time_type(unix_time)
+                .map(|ltt| ltt.offset())
+                .map_err(|e| format!("{:?}", e))
+        }
+
+        pub fn offsets_for_local(
+            &self,
+            local: NaiveDateTime,
+        ) -> Result<MappedLocalTime<i32>, String> {
+            self.0
+                .find_local_time_type_from_local(local)
+                .map(|r| r.map(|ltt| ltt.offset()))
+                .map_err(|e| format!("{:?}", e))
+        }
+
+        pub fn dump(&self) -> ZoneDump {
+            self.0.verif_dump()
+        }
+    }
+}
+
 /// The local timescale.
 ///
 /// Using the [`TimeZone`](./trait.TimeZone.html) methods
